@@ -3,8 +3,10 @@ middlewares) and the per-configuration drivers that run the *real*
 ``process_graphql_query`` on the simulated substrates.
 """
 import asyncio
+import collections
 import inspect
 import logging
+import types
 
 import py_gql
 from py_gql import build_schema, process_graphql_query
@@ -58,6 +60,36 @@ class Boom(Exception):
     """Unexpected resolver exception (fault F3)."""
 
 
+class BoomIndex(Boom, IndexError):
+    pass
+
+
+class BoomKey(Boom, KeyError):
+    pass
+
+
+class BoomValue(Boom, ValueError):
+    pass
+
+
+class BoomType(Boom, TypeError):
+    pass
+
+
+class BoomAttribute(Boom, AttributeError):
+    pass
+
+
+class BoomLookup(Boom, LookupError):
+    pass
+
+
+# unexpected exceptions come in the classes that library code tends to catch
+# for its own control flow
+BOOM_CLASSES = (Boom, BoomIndex, BoomKey, BoomValue, BoomType, BoomAttribute,
+                BoomLookup)
+
+
 class DeniedError(ResolverError):
     """The library documents subclassing ResolverError for expected errors."""
 
@@ -73,7 +105,7 @@ def make_additional_types():
         EnumType("Color", list(ENUM_VALUES)),
         ScalarType(
             "Stamp",
-            serialize=lambda v: "S:%d" % v,
+            serialize=lambda v: None if v % 13 == 0 else "S:%d" % v,
             parse=_stamp_parse,
         ),
     ]
@@ -126,17 +158,30 @@ def _finish(tname, fname, root, ctx, kwargs, tok):
         if fault == "errs":
             ctx.count("F1_resolver_error_subclass")
             raise DeniedError(error_message(path))
-        raise ResolverError(
-            error_message(path),
-            extensions=error_extensions(path) if fault == "errx" else None,
-        )
+        ext = None
+        if fault == "errx":
+            # "extensions: Optional[Mapping[str, Any]]" -- any mapping
+            ext = error_extensions(path)
+            shape = len(path) % 3
+            if shape == 1:
+                ext = types.MappingProxyType(ext)
+                ctx.count("F1_extensions_mappingproxy")
+            elif shape == 2:
+                ext = collections.ChainMap(ext)
+                ctx.count("F1_extensions_chainmap")
+        raise ResolverError(error_message(path), extensions=ext)
     if fault == "boom":
         ctx.log("rb", path, ctx.req_id)
         ctx.count("F3_boom")
-        raise Boom("/".join(str(p) for p in path))
+        cls = BOOM_CLASSES[sum(len(str(p)) for p in path) % len(BOOM_CLASSES)]
+        raise cls("/".join(str(p) for p in path))
     v = ctx.world.field_value(root, tname, fname, kwargs, path, seq)
     ctx.log("re", path, ctx.req_id)
     return v
+
+
+def _identity(x):
+    return x
 
 
 class _Awaitable:
@@ -201,6 +246,32 @@ def make_resolvers(spec, tname, fname):
         return v
 
     out = {"blocking": sync, "pool": sync, "asyncio": sync}
+
+    if beh == "rtapi":
+        # A resolver that uses the runtime's own combinators (ResolveInfo
+        # exposes the runtime for this): every list item becomes a submitted
+        # task; once the FIRST one is there all of them are gathered -- so the
+        # gather sees an already completed future ahead of pending ones.
+        def _parts(ctx, info, v):
+            runtime = info.runtime
+            parts = [runtime.submit(_identity, x) for x in v]
+            ctx.count("runtime_api_resolver")
+            if not parts:
+                return runtime.gather_values(parts)
+            return runtime.map_value(
+                parts[0], lambda _first: runtime.gather_values(parts))
+
+        def rt_sync(root, ctx, info, **kwargs):
+            tok = _start(tname, fname, root, ctx, info)
+            v = _finish(tname, fname, root, ctx, kwargs, tok)
+            return None if v is None else _parts(ctx, info, list(v))
+
+        async def rt_async(root, ctx, info, **kwargs):
+            tok = _start(tname, fname, root, ctx, info)
+            v = _finish(tname, fname, root, ctx, kwargs, tok)
+            return None if v is None else _parts(ctx, info, list(v))
+
+        out = {"blocking": rt_sync, "pool": rt_sync, "asyncio": rt_async}
 
     if beh == "async":
         async def coro(root, ctx, info, **kwargs):
@@ -342,6 +413,59 @@ class Recorder(Instrumentation):
 
     def on_field_end(self, root, ctx, info):
         self._log("field_end", tuple(info.path))
+
+
+class EndsOnlyRecorder(Instrumentation):
+    """An instrumentation that implements only the *_end hooks (a slow-field
+    logger, a counter): the other hooks are inherited no-ops."""
+
+    def __init__(self, kernel_ref, tag, req_id=0):
+        self._k = kernel_ref
+        self.tag = tag
+        self.req_id = req_id
+
+    def _log(self, kind, path=None):
+        self._k().log.add(kind, path, (self.tag, self.req_id))
+
+    def on_query_end(self):
+        self._log("query_end")
+
+    def on_parsing_end(self):
+        self._log("parsing_end")
+
+    def on_validation_end(self):
+        self._log("validation_end")
+
+    def on_execution_end(self):
+        self._log("execution_end")
+
+    def on_field_end(self, root, ctx, info):
+        self._log("field_end", tuple(info.path))
+
+
+class StartsOnlyRecorder(Instrumentation):
+    def __init__(self, kernel_ref, tag, req_id=0):
+        self._k = kernel_ref
+        self.tag = tag
+        self.req_id = req_id
+
+    def _log(self, kind, path=None):
+        self._k().log.add(kind, path, (self.tag, self.req_id))
+
+    def on_query_start(self):
+        self._log("query_start")
+
+    def on_parsing_start(self):
+        self._log("parsing_start")
+
+    def on_validation_start(self):
+        self._log("validation_start")
+
+    def on_execution_start(self):
+        self._log("execution_start")
+
+    def on_field_start(self, root, ctx, info):
+        self._log("field_start", tuple(info.path))
 
 
 def make_middleware(tag, is_async=False):
